@@ -77,7 +77,7 @@ func C07(r *drv.Run) {
 		nReaderOps = 600000
 		rounds = 4
 	}
-	r.Rule = "(1) differential: RunFiles([f], NOTHING) == Run(string(bytes of f)) on every field but Filename, for 16 programs forcing forward scans, one-byte-back reads (line/word anchors), far-back seeks (lazy scan to EOF that fails; greedy loop over a ~1500 byte run straddling offset 4096 that backtracks) x 17 file sizes (0, 1, 2, around 2048/4096/6144/8192, 12 000, 20 000) with needles planted around every multiple of 2048; (2) online monitor (hook H4): every read the engine issues to the backing store is compared with the ground-truth bytes at the offset the Reader believes it is at; re-centres forward/backward, reads spanning a 4096 boundary and reads of the last byte are counted; (3) direct driver: long random Seek/Read/ReadAt/anchor-pair histories on files.ReaderFromFile vs ReaderFromString vs the bytes, offsets biased to 0, window edges, size-1, size. Non-trivial = engine case with >= 1 match and >= 1 window re-centre, or reader history with >= 1 backward re-centre; distinct by (program, size, content seed)."
+	r.Rule = "(1) differential: RunFiles([f], NOTHING) == Run(string(bytes of f)) on every field but Filename, for 16 programs forcing forward scans, one-byte-back reads (line/word anchors), far-back seeks (lazy scan to EOF that fails; greedy loop over a ~1500 byte run straddling offset 4096 that backtracks) x 17 file sizes (0, 1, 2, around 2048/4096/6144/8192, 12 000, 20 000) with needles planted around every multiple of 2048, also several files (an empty one among them) in one call; (2) online monitor (hook H4): every read the engine issues to the backing store is compared with the ground-truth bytes at the offset the Reader believes it is at; re-centres forward/backward, reads spanning a 4096 boundary and reads of the last byte are counted; (3) direct driver: long random Seek/Read/ReadAt/anchor-pair histories on files.ReaderFromFile vs ReaderFromString vs the bytes, offsets biased to 0, window edges, size-1, size. Non-trivial = engine case with >= 1 match and >= 1 window re-centre, or reader history with >= 1 backward re-centre; distinct by (program, size, content seed)."
 	r.Assumptions = []string{"the online read monitor trusts only the bytes the harness itself wrote to the file"}
 	dir := filepath.Join(r.WorkDir, "c07")
 	os.MkdirAll(dir, 0o755)
@@ -168,6 +168,65 @@ func C07(r *drv.Run) {
 			}
 			if i%29 == 0 {
 				r.Sample(map[string]any{"program": src, "file_size": f.size, "matches": len(a), "refills_back": fr.RefillBack})
+			}
+		}}
+	})
+	// several files in one RunFiles call == the per-file results in order (single-command programs)
+	multi := [][]int{{8, 0, 14}, {1, 7, 3}, {16, 13}, {0, 0, 9}}
+	r.Exec(len(multi)*len(c07Programs), drv.ExecOpts{Batch: 4}, func(i int) *drv.Item {
+		set := multi[i/len(c07Programs)]
+		src := c07Programs[i%len(c07Programs)]
+		if src == c07Programs[5] || src == c07Programs[3] {
+			return nil
+		}
+		var paths []string
+		var texts [][]byte
+		for _, k := range set {
+			paths = append(paths, files[k].path)
+			texts = append(texts, files[k].content)
+		}
+		c := wire.Case{Op: "runfiles", Src: []byte(src), Files: paths, Mode: "NOTHING", Texts: texts, StepBudget: 30_000_000}
+		return &drv.Item{Case: c, Check: func(res *wire.Result) {
+			if crashOrGuard(r, res, &c, src, false) {
+				return
+			}
+			if res.Compile == nil || !res.Compile.OK || len(res.Runs) != 1+len(paths) {
+				r.Inconclusive("multi-file case: short result")
+				return
+			}
+			r.Eval(1)
+			fr := &res.Runs[0]
+			if fr.Panic != nil {
+				r.Violate(&drv.Violation{Sig: "runfiles-panic:" + fr.Panic.Frame, Panic: fr.Panic.Msg, Frame: fr.Panic.Frame, Src: src, Case: &c})
+				return
+			}
+			if fr.Budget != "" {
+				r.Count("skipped_expensive", 1)
+				return
+			}
+			if fr.ReadMismatch != "" {
+				r.Violate(&drv.Violation{Sig: "engine-read-returned-wrong-bytes", Src: src, Case: &c, Detail: map[string]any{"read": fr.ReadMismatch, "files": fmt.Sprint(paths)}})
+				return
+			}
+			var want []wire.Match
+			for k := range paths {
+				sr := &res.Runs[1+k]
+				if sr.Panic != nil || sr.Budget != "" {
+					return
+				}
+				for _, m := range sr.Matches {
+					m.File = paths[k]
+					want = append(want, m)
+				}
+			}
+			if matchesJSON(fr.Matches) != matchesJSON(want) {
+				r.Violate(&drv.Violation{Sig: "multi-file-result-differs-from-per-file-results", Src: src, Case: &c,
+					Detail: map[string]any{"files": fmt.Sprint(paths), "file_matches": len(fr.Matches), "expected_matches": len(want)}})
+				return
+			}
+			r.Count("multi_file_calls_verified", 1)
+			if len(want) > 0 {
+				r.Nontrivial(fmt.Sprintf("multi|%s|%v", src, set))
 			}
 		}}
 	})
